@@ -191,8 +191,8 @@ def run(ctx):
         nt = len({c.get("name", str(c.get("kin"))) for c in cases if "err" not in c})
         hist = {"programs": Counter(c.get("name", "canon") for c in cases),
                 "errors": Counter(c.get("err", "")[:70] for c in cases if "err" in c)}
-        rule = ("15 deterministic program templates (polynomial, trig/exp, reductions, indexing/slicing, matvec, outer/transpose, integer and boolean "
-                "intermediates, casts, cond with either branch, max/min, pytree arguments, integer constants) on scalar / vector / pytree arguments with random "
+        rule = ("deterministic program templates (see the histogram; polynomial, trig/exp, reductions, indexing/slicing, matvec, outer/transpose, integer and boolean "
+                "intermediates, casts, cond with either branch, max/min, pytree arguments, integer constants, complex / half-precision intermediates, loops, linear algebra, zero-derivative primitives in last position, cond / switch branches returning constants) on scalar / vector / pytree arguments with random "
                 "values and tangents: jvp_estimate vs jax.jvp, grad_estimate vs jax.grad (also under jit), estimate vs f; plus the tangent canonicalisation "
                 "helpers on symbolic-zero / float0 / value tangents compared with the model; non-trivial = distinct template")
     return {"cases": cases, "bad": bad, "worker_errs": worker_errs, "coq_errs": coq_errs,
